@@ -381,6 +381,18 @@ def run_family(chk, prop, exe, bdir, fam, n, rng, tag):
     idx = concat(traces, allp)
     v = judge(chk, prop, allp, idx, cfgs, bdir, fam)
     stats = {"runs": len(idx), "events": v["consumed"]}
+    nontrivial = 0
+    distinct = set()
+    for t in traces:
+        try:
+            body = open(t).read()
+        except OSError:
+            continue
+        if '"StorAppend"' in body or '"MonMap"' in body or '"DevOpen"' in body:
+            nontrivial += 1
+        distinct.add(hash(body.split('{"e":"Sched"')[0]))
+    stats["nontrivial_runs"] = nontrivial
+    stats["distinct_traces"] = len(distinct)
     txt = open(allp).read()
     for k in ("StorAppend", "MonMap", "Hang", "CamFail", "StorFail", "Api2"):
         stats[k] = txt.count('"e":"%s"' % k)
@@ -786,9 +798,10 @@ def main(prop, tier):
         raise Broken("vacuous: only %d events" % total_events)
     chk.set("traces_validated_against_impl", total_runs)
     chk.set("evaluations", total_runs)
-    chk.set("distinct_nontrivial", total_runs)
+    chk.set("distinct_nontrivial", min(sum(f.get("nontrivial_runs", 0) for f in chk.cov["families"].values()),
+                                       sum(f.get("distinct_traces", 0) for f in chk.cov["families"].values())))
     chk.set("rule", "seeded scenario generator (shapes, frame counts, ring 1.2-5 frames, schedules random/PCT/starvation, client programs); "
-                    "every run differs in seed/config; non-trivial = produced storage or monitor events")
+                    "non-trivial = the run produced storage, monitor or device-open events; distinct = distinct event traces (schedule line excluded), both counted on this run")
     chk.set("events_validated", total_events)
     chk.set("checker_cmd", "tlc Pipeline (MC cfgs, safety + liveness); tlc PipelineObs/LifecycleObs with TRACE=<vsched traces of the real runtime>")
     chk.assume("sequentially consistent flag accesses (vsched serialises threads)")
